@@ -356,3 +356,128 @@ def run(cx, rep):
     # ---------------------------------------------------------------- C03.8
     rep.rule("C03.8", "parseAfterValidation() reads every constructor argument it read on the reviewed tree")
     ts_common.field_matrix_rule(cx, rep, "C03.8", ['parseAfterValidation'])
+    # ---------------------------------------------------------------- C03.10
+    rep.rule("C03.10", "parseAfterValidation(): every element of an array-valued constructor argument is accounted for (no fixed-size prefix)")
+    ts_common.truncation_rule(cx, rep, "C03.10", ['parseAfterValidation'])
+    # ---------------------------------------------------------------- C03.9
+    rep.rule("C03.9", "parseAfterValidation delegates a value to a member only if validate() sent it through that member")
+    accept_guard_rule(fam, mod, rep, "C03.9")
+
+
+NULLISH = ("undefined", "null", "other")
+
+
+def _nullish_atom(e):
+    """(subject text, values of {undefined, null, other} for which the test is TRUE) for a nullness test, else None"""
+    e = unparen(e)
+    if e.get("type") != "BinaryExpression" or e["operator"] not in ("==", "!=", "===", "!=="):
+        return None
+    l, r = unparen(e["left"]), unparen(e["right"])
+    def lit(x):
+        if x.get("type") == "NullLiteral":
+            return "null"
+        if x.get("type") == "Identifier" and x["value"] == "undefined":
+            return "undefined"
+        if x.get("type") == "UnaryExpression" and x["operator"] == "void":
+            return "undefined"
+        return None
+    if lit(r) is None and lit(l) is not None:
+        l, r = r, l
+    k = lit(r)
+    if k is None:
+        return None
+    op = e["operator"]
+    if op in ("==", "!="):
+        yes = {"undefined", "null"}
+    else:
+        yes = {k}
+    if op in ("!=", "!=="):
+        yes = set(NULLISH) - yes
+    return s(l), yes
+
+
+def _allowed(fn, node, subject):
+    """values of {undefined, null, other} the subject can have at `node`, and the other atoms known there"""
+    allowed = set(NULLISH)
+    other = {}
+    for txt, pol in ts_common.known_atoms(fn, node).items():
+        e = ts_common._NODES.get(txt)
+        na = _nullish_atom(e) if e is not None else None
+        if na is not None and na[0] == subject:
+            allowed &= na[1] if pol else (set(NULLISH) - na[1])
+        else:
+            other[txt] = pol
+    return allowed, other
+
+
+def accept_guard_rule(fam, mod, rep, rid):
+    """validate() of a wrapper may ACCEPT a value without showing it to the wrapped member (an optional field accepts
+    null and undefined).  parseAfterValidation() must then not hand such a value to the member's parseAfterValidation:
+    the member never validated it, so it dereferences null / builds a value that is not a projection of the input.
+    Decided per class: for every `return true` of validate() that is guarded by tests on the input itself (not by a
+    member's verdict), the guards known at every `<member>.parseAfterValidation(ctx, <same input>)` call contradict
+    it - nullness tests are compared as sets over {undefined, null, other}, other tests by text and polarity."""
+    n = 0
+    for cname in sorted(fam.concrete()):
+        _, v = fam.resolve_method(cname, "validate")
+        _, p = fam.resolve_method(cname, "parseAfterValidation")
+        if not v or not p or v["function"].get("body") is None or p["function"].get("body") is None:
+            continue
+        vf, pf = v["function"], p["function"]
+        vparams, pparams = ts_common.fn_params(vf), ts_common.fn_params(pf)
+        if len(vparams) < 2 or len(pparams) < 2 or not vparams[1] or not pparams[1]:
+            continue
+        vin, pin = vparams[1], pparams[1]
+        accepts = []
+        for r in walk(vf):
+            if r["type"] != "ReturnStatement" or r.get("argument") is None:
+                continue
+            a = unparen(r["argument"])
+            guards = None
+            if a.get("type") == "BooleanLiteral" and a["value"] is True:
+                guards = (r, None)
+            elif a.get("type") == "BinaryExpression" and a["operator"] == "||":
+                guards = (r, a["left"])
+            if guards is None:
+                continue
+            allowed, other = _allowed(vf, r, vin)
+            if guards[1] is not None:
+                na = _nullish_atom(guards[1])
+                if na is not None and na[0] == vin:
+                    allowed &= na[1]
+                else:
+                    other[s(unparen(guards[1]))] = True
+            # a guard that is a member's verdict (or a loop over members) is not an accept-without-delegation
+            if any(".validate(" in t for t in other):
+                continue
+            if allowed == set(NULLISH) and not other:
+                continue
+            # the accept must precede / replace a delegation in the same function
+            if not any(c["type"] == "CallExpression" and s(c["callee"]).endswith(".validate") for c in walk(vf)):
+                continue
+            accepts.append((r, allowed, other))
+        if not accepts:
+            continue
+        for c in walk(pf):
+            if c["type"] != "CallExpression" or not s(c["callee"]).endswith(".parseAfterValidation"):
+                continue
+            args = c.get("arguments") or []
+            if len(args) < 2 or s(unparen(args[1]["expression"])) != pin:
+                continue
+            p_allowed, p_other = _allowed(pf, c, pin)
+            for r, allowed, other in accepts:
+                n += 1
+                # rename the validate-side subject to the parse-side one for textual atoms
+                contradiction = False
+                if allowed != set(NULLISH) and not (allowed & p_allowed):
+                    contradiction = True
+                for t, pol in other.items():
+                    t2 = re.sub(r"\b%s\b" % re.escape(vin), pin, t)
+                    if t2 in p_other and p_other[t2] != pol:
+                        contradiction = True
+                leak = sorted(allowed & p_allowed) if allowed != set(NULLISH) else ["(values passing %s)" % ", ".join(sorted(other))]
+                rep.ob(rid, "%s/%s" % (cname, s(c["callee"])), contradiction,
+                       "%s.validate accepts `%s` in {%s} without consulting the member, but %s.parseAfterValidation hands %s to %s: the member never validated that value, so parse throws a TypeError or returns something that is not a projection of the input" % (
+                           cname, vin, ", ".join(sorted(allowed)) if allowed != set(NULLISH) else ", ".join(sorted(other)), cname, ", ".join(leak), s(c["callee"])),
+                       mod.loc(c), sample={"class": cname, "accepted_without_member": sorted(allowed), "reaching_member_parse": sorted(p_allowed)})
+    rep.floor(rid, "accept-without-delegation guards matched with a delegating parse", n, 1)
